@@ -14,6 +14,10 @@ def register(w):
             "a == b or (a == 'uninitialized' and b == 'running') or (a == 'running' and (b == 'done' or b == 'error' or b == 'stopped'))"
             " or ((a == 'done' or a == 'error') and b == 'stopped')")
 
+    # reflexive-transitive closure of the allowed edges (what a whole macrostep may do to the status)
+    w.macro("status_reach", ["a", "b"],
+            "a == b or (a == 'uninitialized' and valid_status(b)) or (a == 'running' and (b == 'done' or b == 'error' or b == 'stopped'))"
+            " or ((a == 'done' or a == 'error') and b == 'stopped')")
     w.macro("valid_status", ["s"], "s == 'uninitialized' or s == 'running' or s == 'done' or s == 'error' or s == 'stopped'")
 
     @w.contract(BI + "_notify_subscribers", props=["C07", "C14"])
